@@ -110,107 +110,101 @@ def bufUpd (buf : List BufEntry) (key : Bytes) (f : BufEntry → BufEntry) : Lis
   if buf.any (·.key == key) then buf.map fun b => if b.key == key then f b else b
   else buf ++ [f { key := key }]
 
-/-- the monitor: rule numbers follow DESIGN §4 C04 -/
-def Monitor.step (m : MState) : Ev → Except String MState
+/-- the checks (rule, verdict) an event must pass in state `m`; rule numbers follow DESIGN §4 C04 -/
+def checksOf (m : MState) : Ev → List (Bool × String)
+  | .prewrite client _fate startTS primary muts minReq _ok _minResp tryOnePC _async _secondaries =>
+    let t := m.get startTS client
+    [ (t.primary.isNone || t.primary == some primary, "rule8 prewrites of one commit name different primaries"),
+      (!tryOnePC || t.attemptedKeys.all (fun k => muts.any (·.1 == k)), "rule8 try_one_pc with more than one prewrite request"),
+      (minReq == 0 || minReq > startTS, "rule7 min_commit_ts not above start_ts") ]
+  | .commit client _fate startTS commitTS keys _ok _definiteErr =>
+    let t := m.get startTS client
+    let prewrittenKeys := (t.prewritten.filter (fun x => x.2.1 != .checkNotExists)).map (·.1)
+    let hasPrimary := match t.primary with | some p => keys.contains p | none => false
+    [ (commitTS > startTS, "rule7 commit_ts not above start_ts"),
+      (t.minCommits.all (· ≤ commitTS), "rule7 commit_ts below a min_commit_ts returned by prewrite"),
+      (match t.commitCallTSO with | some x => t.causal || commitTS > x | none => true,
+        "rule7 commit_ts not above a timestamp issued before Commit was called"),
+      (keys.all fun k => prewrittenKeys.contains k, "rule1 commit of a key whose prewrite was not acknowledged"),
+      (t.attemptedKeys.all fun k => t.prewritten.any (·.1 == k), "rule1 commit before every prewrite was acknowledged"),
+      (t.buffer.isEmpty || sameMuts t.prewritten (expectedMuts t), "rule9 prewritten mutations differ from the buffered writes"),
+      (match t.primary with | some p => prewrittenKeys.contains p | none => false, "rule8 primary is not one of the locked mutations"),
+      (hasPrimary || t.primaryCommitted.isSome, "rule2 secondary committed before the primary commit succeeded"),
+      (match t.primaryCommitted with | some c => c == commitTS | none => true,
+        "rule2 secondaries committed at a different commit ts than the primary") ]
+  | .rollback client _fate startTS _keys =>
+    let t := m.get startTS client
+    [ (!(t.client == client && t.commitPointMaybe), "rule3 rollback sent after a primary commit that may have taken effect") ]
+  | .status client _fate _primary lockTS _callerTS currentTS rollbackIfNotExist _answered _ttl _commitTS _isErr =>
+    let t := m.get lockTS client
+    [ (if currentTS == maxU64 then isGC client || t.ttlSeen == some 0 || t.ttlSeen.isNone else currentTS ≤ m.maxTSO,
+        "rule5 current_ts beyond what the resolver's oracle has seen, or max for a live lock outside GC"),
+      (!(rollbackIfNotExist && !isGC client) ||
+        (match t.ttlSeen with | some ttl' => physical lockTS + ttl' ≤ physical m.maxTSO | none => true),
+        "rule5 rollback_if_not_exist for a lock whose ttl has not elapsed") ]
+  | .resolve client _fate startTS commitTS infos =>
+    let one (s c : Nat) : Bool :=
+      let t := m.get s client
+      if t.client == client && (t.primaryCommitted == some c && c > 0) then true
+      else if c > 0 then t.statusAnswers.any fun a => a.1 == c
+      else t.statusAnswers.any fun a => a.2
+    [ (if infos.isEmpty then one startTS commitTS else infos.all fun (s, c) => one s c,
+        "rule4 resolve with an outcome the store never reported for that transaction") ]
+  | .heartbeat client _fate primary startTS advise =>
+    let t := m.get startTS client
+    [ (t.primary.isNone || t.primary == some primary, "rule6 heartbeat does not name the primary"),
+      (advise ≥ t.lastAdvise, "rule6 advise_ttl decreased"),
+      (!t.ended, "rule6 heartbeat after the transaction ended") ]
+  | _ => []
+
+/-- the state after an accepted event -/
+def applyEv (m : MState) : Ev → MState
   | .tso client ts =>
-    .ok { m with maxTSO := max m.maxTSO ts,
-                 clientTSO := (client, ts) :: m.clientTSO.filter (·.1 != client) }
-  | .begin_ client startTS pess => .ok (m.upd { (m.get startTS client) with client := client, pess := pess })
+    { m with maxTSO := max m.maxTSO ts, clientTSO := (client, ts) :: m.clientTSO.filter (·.1 != client) }
+  | .begin_ client startTS pess => m.upd { (m.get startTS client) with client := client, pess := pess }
   | .bufSet client startTS key value insert =>
     let t := m.get startTS client
-    .ok (m.upd { t with buffer := bufUpd t.buffer key fun b =>
+    m.upd { t with buffer := bufUpd t.buffer key fun b =>
       { b with value := value, hasValue := true, presumeNotExists := b.presumeNotExists || insert,
-               newlyInserted := b.newlyInserted || insert } })
+               newlyInserted := b.newlyInserted || insert } }
   | .bufDelete client startTS key =>
     let t := m.get startTS client
-    .ok (m.upd { t with buffer := bufUpd t.buffer key fun b => { b with value := [], hasValue := true } })
+    m.upd { t with buffer := bufUpd t.buffer key fun b => { b with value := [], hasValue := true } }
   | .bufLock client startTS keys =>
     let t := m.get startTS client
-    .ok (m.upd { t with buffer := keys.foldl (fun buf k => bufUpd buf k fun b => { b with locked := true }) t.buffer })
-  | .commitCalled client startTS =>
-    .ok (m.upd { (m.get startTS client) with commitCallTSO := some m.maxTSO })
-  | .ended client startTS => .ok (m.upd { (m.get startTS client) with ended := true })
-  | .lockSeen client lockTS ttl =>
-    .ok (m.upd { (m.get lockTS client) with ttlSeen := some ttl })
-  | .prewrite client fate startTS primary muts minReq ok minResp tryOnePC _async _secondaries => do
+    m.upd { t with buffer := keys.foldl (fun buf k => bufUpd buf k fun b => { b with locked := true }) t.buffer }
+  | .commitCalled client startTS => m.upd { (m.get startTS client) with commitCallTSO := some m.maxTSO }
+  | .ended client startTS => m.upd { (m.get startTS client) with ended := true }
+  | .lockSeen client lockTS ttl => m.upd { (m.get lockTS client) with ttlSeen := some ttl }
+  | .prewrite client fate startTS primary muts _minReq ok minResp _tryOnePC _async _secondaries =>
     let t := m.get startTS client
-    -- rule 8: one primary per commit
-    check (t.primary.isNone || t.primary == some primary) "rule8 prewrites of one commit name different primaries"
-    -- rule 8: one-phase commit only with a single prewrite request
-    check (!tryOnePC || t.attemptedKeys.all (fun k => muts.any (·.1 == k))) "rule8 try_one_pc with more than one prewrite request"
-    -- rule 7 (request side): min_commit_ts > start ts
-    check (minReq == 0 || minReq > startTS) "rule7 min_commit_ts not above start_ts"
     let acked := fate == .answered && ok
-    let t' := { t with
+    m.upd { t with
       primary := some primary
       attemptedKeys := t.attemptedKeys ++ (muts.map (·.1)).filter (fun k => !t.attemptedKeys.contains k)
       prewritten := if acked then t.prewritten ++ muts.filter (fun x => !t.prewritten.contains x) else t.prewritten
       minCommits := if acked && minResp > 0 then minResp :: t.minCommits else t.minCommits }
-    .ok (m.upd t')
-  | .commit client fate startTS commitTS keys ok definiteErr => do
+  | .commit client fate startTS commitTS keys ok definiteErr =>
     let t := m.get startTS client
-    -- rule 7
-    check (commitTS > startTS) "rule7 commit_ts not above start_ts"
-    check (t.minCommits.all (· ≤ commitTS)) "rule7 commit_ts below a min_commit_ts returned by prewrite"
-    match t.commitCallTSO with
-    | some x => check (t.causal || commitTS > x) "rule7 commit_ts not above a timestamp issued before Commit was called"
-    | none => pure ()
-    -- rule 1: every key being committed was acknowledged prewritten, and so was every mutation of the transaction
-    let prewrittenKeys := (t.prewritten.filter (fun x => x.2.1 != .checkNotExists)).map (·.1)
-    check (keys.all fun k => prewrittenKeys.contains k) "rule1 commit of a key whose prewrite was not acknowledged"
-    check (t.attemptedKeys.all fun k => t.prewritten.any (·.1 == k)) "rule1 commit before every prewrite was acknowledged"
-    -- rule 9: union of prewritten mutations = buffered writes (only when the API-level buffer is known)
-    check (t.buffer.isEmpty || sameMuts t.prewritten (expectedMuts t)) "rule9 prewritten mutations differ from the buffered writes"
-    -- rule 8: the primary is one of the locked mutations
-    match t.primary with
-    | some p => check (prewrittenKeys.contains p) "rule8 primary is not one of the locked mutations"
-    | none => .error "rule8 commit without any prewrite"
     let hasPrimary := match t.primary with | some p => keys.contains p | none => false
-    -- rule 2: secondaries only after the primary's commit succeeded
-    check (hasPrimary || t.primaryCommitted.isSome) "rule2 secondary committed before the primary commit succeeded"
-    match t.primaryCommitted with
-    | some c => check (c == commitTS) "rule2 secondaries committed at a different commit ts than the primary"
-    | none => pure ()
     let executedOk := (fate == .answered || fate == .lostResp) && ok
     let maybe := hasPrimary && !(fate == .notExecuted || (fate == .answered && definiteErr))
-    .ok (m.upd { t with
+    m.upd { t with
       commitPointMaybe := t.commitPointMaybe || maybe
       primaryCommitted := if hasPrimary && executedOk then some commitTS else t.primaryCommitted
-      committedKeys := if executedOk then t.committedKeys ++ keys else t.committedKeys })
-  | .rollback client _fate startTS _keys => do
-    let t := m.get startTS client
-    -- rule 3: the owner never rolls back once the primary commit may have taken effect
-    check (!(t.client == client && t.commitPointMaybe)) "rule3 rollback sent after a primary commit that may have taken effect"
-    .ok m
-  | .status client _fate _primary lockTS _callerTS currentTS rollbackIfNotExist answered ttl commitTS isErr => do
+      committedKeys := if executedOk then t.committedKeys ++ keys else t.committedKeys }
+  | .rollback _ _ _ _ => m
+  | .status client _fate _primary lockTS _callerTS _currentTS _rb answered ttl commitTS isErr =>
     let t := m.get lockTS client
-    -- rule 5: the resolver's notion of "now"
-    if currentTS == maxU64 then
-      check (isGC client || t.ttlSeen == some 0 || t.ttlSeen.isNone) "rule5 current_ts = max for a lock with non-zero ttl outside GC"
-    else
-      check (currentTS ≤ m.maxTSO) "rule5 current_ts beyond every timestamp the oracle has issued"
-    if rollbackIfNotExist && !isGC client then
-      match t.ttlSeen with
-      | some ttl' => check (physical lockTS + ttl' ≤ physical m.maxTSO) "rule5 rollback_if_not_exist for a lock whose ttl has not elapsed"
-      | none => pure ()
-    let t' := if answered && !isErr then { t with statusAnswers := (commitTS, ttl == 0 && commitTS == 0) :: t.statusAnswers } else t
-    .ok (m.upd t')
-  | .resolve client _fate startTS commitTS infos => do
-    -- rule 4: a resolver applies only the outcome the store reported for that transaction
-    let one (s c : Nat) : Except String Unit :=
-      let t := m.get s client
-      if t.client == client && (t.primaryCommitted == some c && c > 0) then .ok ()      -- the owner resolving its own committed txn
-      else if c > 0 then check (t.statusAnswers.any fun a => a.1 == c) s!"rule4 resolve of {s} with commit ts {c} never reported by the store"
-      else check (t.statusAnswers.any fun a => a.2) s!"rule4 resolve-rollback of {s} never reported rolled back by the store"
-    if infos.isEmpty then one startTS commitTS else infos.forM fun (s, c) => one s c
-    .ok m
-  | .heartbeat client _fate primary startTS advise => do
-    let t := m.get startTS client
-    -- rule 6
-    check (t.primary.isNone || t.primary == some primary) "rule6 heartbeat does not name the primary"
-    check (advise ≥ t.lastAdvise) "rule6 advise_ttl decreased"
-    check (!t.ended) "rule6 heartbeat after the transaction ended"
-    .ok (m.upd { t with lastAdvise := advise })
+    if answered && !isErr then m.upd { t with statusAnswers := (commitTS, ttl == 0 && commitTS == 0) :: t.statusAnswers } else m
+  | .resolve _ _ _ _ _ => m
+  | .heartbeat client _fate _primary startTS advise => m.upd { (m.get startTS client) with lastAdvise := advise }
+
+/-- the monitor: an event is accepted iff all its checks hold; the first failing rule is reported -/
+def Monitor.step (m : MState) (ev : Ev) : Except String MState :=
+  match (checksOf m ev).find? (fun c => !c.1) with
+  | some (_, msg) => .error msg
+  | none => .ok (applyEv m ev)
 
 /-! ## history oracles -/
 
@@ -223,22 +217,26 @@ inductive Outcome
   | mixed (why : String)
   deriving DecidableEq, Repr, Inhabited
 
+def recsOf (s : Store) (T : Nat) : List Write := s.kv.flatMap fun p => p.2.writes.filter (·.startTS == T)
+def hasLockOf (s : Store) (T : Nat) : Bool :=
+  s.kv.any fun p => match p.2.lock with | some l => l.startTS == T | none => false
+def allSameCommit : List Write → Bool
+  | [] => true
+  | d :: rest => rest.all (·.commitTS == d.commitTS)
+
 /-- C02/C14 `atomicCheck`: all records of `T` over all keys are data records with one commit ts, or all rollbacks;
-    `allowLocks = false` additionally demands that no lock of `T` remains -/
+    a lock of `T` next to records of `T` is reported as `mixed "… lock left"` -/
 def outcomeOf (s : Store) (T : Nat) : Outcome :=
-  let recs := s.kv.flatMap fun (_, e) => e.writes.filter (·.startTS == T)
-  let locks := s.kv.filter fun (_, e) => match e.lock with | some l => l.startTS == T | none => false
-  let datas := recs.filter (·.vt != .rollback)
-  let rbs := recs.filter (·.vt == .rollback)
+  let datas := (recsOf s T).filter (·.vt != .rollback)
+  let rbs := (recsOf s T).filter (·.vt == .rollback)
+  let locked := hasLockOf s T
   if !datas.isEmpty && !rbs.isEmpty then .mixed "committed on one key and rolled back on another"
-  else match datas with
-    | d :: rest =>
-      if rest.all (·.commitTS == d.commitTS) then
-        (if locks.isEmpty then .committed d.commitTS else .mixed "committed with a lock left")
-      else .mixed "two commit timestamps"
-    | [] =>
-      if !rbs.isEmpty then (if locks.isEmpty then .rolledBack else .mixed "rolled back with a lock left")
-      else if locks.isEmpty then .none else .pending
+  else if !datas.isEmpty then
+    (if !allSameCommit datas then .mixed "two commit timestamps"
+     else if locked then .mixed "committed with a lock left"
+     else .committed ((datas.head?.map (·.commitTS)).getD 0))
+  else if !rbs.isEmpty then (if locked then .mixed "rolled back with a lock left" else .rolledBack)
+  else if locked then .pending else .none
 
 /-- value visible at `ts` on key `k` (committed data only) -/
 def visible (s : Store) (k : Bytes) (ts : Nat) : Option Bytes :=
